@@ -41,6 +41,7 @@ func (e *verifWheelEnv) ticks(k int) {
 	for i := 0; i < k; i++ {
 		e.tick++
 		e.w.onTick()
+		verifYield() // native world: let the runTasks goroutine finish before the next tick
 	}
 }
 
